@@ -350,9 +350,11 @@ def oracle_stop_barrier(tr, scripts):
     v = []
     ops = _ops(tr)
     stops = [o for o in ops if o['kind'] in ('stop', 'halt', 'try_stop')]
-    if not stops:
+    # a stop request issued by the actor itself (Context::stop from a handler) counts from the moment it was accepted
+    ctx_stops = [i for i, e in enumerate(tr) if e[0] == 'script_result' and e[1] == 'ctx.stop' and str(e[2]).startswith('Ok')]
+    if not stops and not ctx_stops:
         return v
-    first_stop_begin = min(o['begin'] for o in stops)
+    first_stop_begin = min([o['begin'] for o in stops] + ctx_stops)
     accepted = [o for o in stops if o['kind'] == 'halt' or (o['result'] and o['result'].startswith('Ok'))]
     order = handled_order(tr)
     ended = any(e[0] == 'task_done' and e[1] == 'loop' for e in tr)
@@ -564,7 +566,7 @@ def oracle_containment(tr, status, scripts):
     return v
 
 
-def oracle_timeouts(tr, cfg):
+def oracle_timeouts(tr, cfg, status=None):
     """C11 at system level (virtual clock): a handler is abandoned only after its full budget T has elapsed since it
     started, never without a configured timeout; an abandoned handler ends the actor with an error iff fail_on_timeout,
     otherwise the loop goes on with the next message"""
@@ -595,6 +597,10 @@ def oracle_timeouts(tr, cfg):
             if (x[0] == 'chan_pop') or (x[0] == 'task_done' and x[1] == 'loop') or (x[0] == 'user_call' and x[3] == ctx and x[2] != n):
                 nxt = j
                 break
+        if done is None and nxt is None and T is not None and status == 'quiescent' \
+                and not any(x[0] == 'user_abandoned' and x[1] == 'handle' and x[2] == n for x in tr[i:]):
+            # the system came to rest (the clock ran past every armed timer) and this handler is still open
+            v.append(f"handler {n} was never abandoned although a timeout of {T} is configured and it did not complete")
         if done is not None or nxt is None:
             continue
         ta = times[nxt]
@@ -719,6 +725,8 @@ def oracle_owning(tr, status, scripts):
     v = []
     term = next((i for i, e in enumerate(tr) if e[0] in ('task_done', 'task_killed', 'task_panicked') and e[1] == 'loop'), None)
     graceful = term is not None and tr[term][0] == 'task_done' and str(tr[term][2]).startswith('Ok')
+    # independent of how the loop classified its own end: a started() that returned Err is a failure of the actor
+    failed_start = any(e[0] == 'user_done' and e[1] == 'started' and e[4] != 'ok' for e in tr)
     last_cb = None
     for e in tr:
         if e[0] == 'user_done':
@@ -734,6 +742,8 @@ def oracle_owning(tr, status, scripts):
                 somes += 1
                 if not graceful:
                     v.append(f"{o['kind']} yielded the actor although termination was not graceful")
+                elif failed_start:
+                    v.append(f"{o['kind']} yielded the actor although its started() had failed")
                 if 'stopped' not in res:
                     v.append(f"{o['kind']} yielded an actor value that did not go through stopped(): {res}")
                 if any(e[0] == 'user_abandoned' and e[1] == 'stopped' for e in tr):
